@@ -319,7 +319,8 @@ Fixpoint dedupN (l : list N) : list N :=
 (* XmlContext.local_names_match(keys, clazz) *)
 Definition local_names_match (u : universe) (keys : list str) (c : cls) : bool :=
   match u_meta u c with
-  | Some meta => forallb (fun k => existsb (fun var => str_eqb (v_local_name var) k) (get_all_vars meta)) keys
+  | Some meta => forallb (fun k => existsb (fun var => str_eqb (match v_wrapper var with Some w => w | None => v_local_name var end) k)
+                                           (get_all_vars meta)) keys
   | None => false
   end.
 
